@@ -257,7 +257,8 @@ Proof. vm_compute. repeat split; reflexivity. Qed.
 (* generateDescriptor (Resolve / FetchReference): the descriptor is what the
    response states; it carries the reference's digest when the reference is a
    digest; a digest header must be valid and is the descriptor's digest; without
-   one, HEAD works only for digest references and GET hashes the body. *)
+   one, HEAD works only for digest references and GET hashes what it reads of the body: at
+   most MaxMetadataBytes, and only when the Content-Length is within that limit. *)
 Theorem C13_corruption_rejected_descriptor :
   forall (H : str -> str) (parse_mt : str -> option str) (limit : N) r rf hd d,
     gen_desc H parse_mt limit r rf hd = Some d ->
@@ -265,7 +266,7 @@ Theorem C13_corruption_rejected_descriptor :
     (valid_digest rf = true -> d_dg d = rf) /\
     match nstr (r_dig r) with
     | [] => if hd then d_dg d = rf /\ valid_digest rf = true
-            else d_dg d = H (r_body r) /\ (limit <? len (r_body r)) = false
+            else d_dg d = H (hashed_body limit r) /\ (limit <? d_sz d) = false
     | sd => sd = d_dg d /\ valid_digest sd = true
     end.
 Proof. exact gen_desc_consistent. Qed.
@@ -285,9 +286,10 @@ Theorem C13_corruption_rejected_fetch_reference :
          (srv : Type) (exch : srv -> request -> srv * response) s rs s' t d c,
     man_fetchref H parse_mt main user_mts limit srv exch s rs = (s', t, RDescBytes d c) ->
     exists rf q r rest, resolve_ref main rs = Some rf /\ t = (q, r) :: rest /\
-      r_status r = 200 /\ c = r_body r /\
-      ((rest = [] /\ gen_desc H parse_mt limit r rf false = Some d) \/
-       (r_clen r = None /\ dig_consistent r (d_dg d) /\
+      r_status r = 200 /\
+      ((rest = [] /\ gen_desc H parse_mt limit r rf false = Some d /\
+        c = match nstr (r_dig r) with [] => hashed_body limit r | _ => r_body r end) \/
+       (r_clen r = None /\ c = r_body r /\ dig_consistent r (d_dg d) /\
         exists q2 r2, rest = [(q2, r2)] /\ r_status r2 = 200 /\
                       gen_desc H parse_mt limit r2 rf true = Some d)).
 Proof. exact man_fetchref_consistent. Qed.
